@@ -33,8 +33,7 @@ LEVEL_TEXT = ("Proof (Coq): the per-category 'both' count is the multiset inters
               "changes no count — over Q for all inputs. _prf and the weighted sums are regenerated from "
               "edm.py (Tie A); compute() is compared bit-exactly with the model's binary64 evaluation.")
 LEVEL_NOTE = ("Partial: IEEE rounding is outside the Q theorems (floats are tied bit-exactly to the same "
-              "counts). Invariance under injective id renaming is checked by the oracle and the "
-              "correspondence (model never looks at ids except for equality) but not stated as a theorem. "
+              "counts; invariance under injective renaming of node identifiers is a theorem for both). "
               "Primitive float/int operations appear in Print Assumptions of the Tie-A theorems.")
 TECHNIQUE = "Coq proof over Q + regenerated arithmetic kernels + bit-exact PrimFloat correspondence"
 DESIGN_REF = "DESIGN.md section 6, C18"
